@@ -84,16 +84,16 @@ Proof.
   simpl. rewrite safe_app, H. simpl. apply IH.
 Qed.
 
-Lemma validate_block_spec_safe : forall T i c, safe T (validate_block_spec i c) = true.
+Lemma validate_block_impl_safe : forall T i c, safe T (validate_block_impl i c) = true.
 Proof. intros T i [[] [] []]; reflexivity. Qed.
 
 Lemma run_block_safe : forall T i c, safe T (run_block i c) = true.
 Proof. reflexivity. Qed.
 
-Theorem validate_spec_safe : forall cs T, safe T (validate_spec cs) = true.
+Theorem validate_impl_safe : forall cs T, safe T (validate_impl cs) = true.
 Proof.
-  intros cs T. unfold validate_spec. rewrite !safe_app.
-  rewrite (blocks_safe validate_block_spec validate_block_spec_safe). reflexivity.
+  intros cs T. unfold validate_impl. rewrite !safe_app.
+  rewrite (blocks_safe validate_block_impl validate_block_impl_safe). reflexivity.
 Qed.
 
 Theorem run_o_safe : forall cs T, safe T (run_impl_o false cs) = true.
@@ -116,8 +116,8 @@ Proof. reflexivity. Qed.
 Definition tags_of (c : dfclass) : list tag :=
   (if emptystr c then [TValues] else []) ++ (if missing c then [TAddCol] else []) ++ (if bom c then [TCols] else []) ++ [TColsId].
 
-Theorem validate_impl_view : forall c,
-  caller_view (ncaller 1) (run_all (validate_impl [c]) (oinit (ncaller 1))) = [[]; []; []; []; []; tags_of c].
+Theorem validate_before_fix_view : forall c,
+  caller_view (ncaller 1) (run_all (validate_before_fix [c]) (oinit (ncaller 1))) = [[]; []; []; []; []; tags_of c].
 Proof. intros [[] [] []]; vm_compute; reflexivity. Qed.
 
 (* ---- statements used verbatim by Props/C22.v ------------------------------------------------------------------ *)
@@ -128,17 +128,17 @@ Proof. intros p nc H k. apply frame_view. apply H. Qed.
 (* refutations on the faithful skeleton of validate_dataset (closed witnesses) *)
 Definition plain : dfclass := mkDf false false false.
 
-Theorem validate_impl_refuted :
+Theorem validate_before_fix_refuted :
   (* a frame with a BOM-prefixed label, a missing nullable column and "" in a numeric column: labels, columns, values *)
-  caller_view (ncaller 1) (run_all (validate_impl [mkDf true true true]) (oinit (ncaller 1)))
+  caller_view (ncaller 1) (run_all (validate_before_fix [mkDf true true true]) (oinit (ncaller 1)))
     = [[]; []; []; []; []; [TValues; TAddCol; TCols; TColsId]] /\
-  safe (taint0 (ncaller 1)) (validate_impl [plain]) = false.
+  safe (taint0 (ncaller 1)) (validate_before_fix [plain]) = false.
 Proof. vm_compute. split; reflexivity. Qed.
 
 (* ... and the modification stays when the call FAILS later: first frame BOM-prefixed, second frame raises at its
    duplicate-identifier check (position 5 + 12 + 11) *)
-Theorem validate_impl_mutates_on_failure_refuted :
-  caller_view (ncaller 2) (run_prefix (5 + block_len + 11) (validate_impl [mkDf true false false; plain]) (oinit (ncaller 2)))
+Theorem validate_before_fix_mutates_on_failure_refuted :
+  caller_view (ncaller 2) (run_prefix (5 + block_len + 11) (validate_before_fix [mkDf true false false; plain]) (oinit (ncaller 2)))
     = [[]; []; []; []; []; [TCols; TColsId]; [TColsId]].
 Proof. vm_compute. reflexivity. Qed.
 
@@ -165,6 +165,6 @@ Proof. intros nc k. apply api_unchanged. exact prettify_o_safe. Qed.
 Theorem generate_sdmx_skeleton_frame : forall nc k, caller_view nc (run_prefix k generate_sdmx_o (oinit nc)) = repeat [] nc.
 Proof. intros nc k. apply api_unchanged. exact generate_sdmx_o_safe. Qed.
 
-Theorem validate_spec_frame : forall cs k,
-  caller_view (ncaller (length cs)) (run_prefix k (validate_spec cs) (oinit (ncaller (length cs)))) = repeat [] (ncaller (length cs)).
-Proof. intros cs k. apply api_unchanged. intros T. apply validate_spec_safe. Qed.
+Theorem validate_impl_frame : forall cs k,
+  caller_view (ncaller (length cs)) (run_prefix k (validate_impl cs) (oinit (ncaller (length cs)))) = repeat [] (ncaller (length cs)).
+Proof. intros cs k. apply api_unchanged. intros T. apply validate_impl_safe. Qed.
